@@ -46,3 +46,14 @@ package datasemaphore
 //@ lemma terminated_refuses(pn int, ps int, mn int, ms int)
 //@   requires pn >= 0 && ps >= 0 && mn >= 0 && ms >= 0 && (mn > 0 || ms > 0)
 //@   ensures  !(pn + mn <= 0 && ps + ms <= 0)
+//@
+//@ // Acquire: while blocked in cond.Wait other goroutines may change the held amount and (Terminate)
+//@ // the capacity. Safety form of "a request that exceeds the capacity is refused / blocked callers
+//@ // return after termination": Wait is only entered while the request could still fit.
+//@ func (*DataSemaphore).Acquire
+//@   requires s != nil && s.cond != nil
+//@   modifies s.processing, s.maxProcessing
+//@   ensures  [granted] result ==> s.processing.Num <= s.maxProcessing.Num && s.processing.Size <= s.maxProcessing.Size
+//@   at call (*sync.Cond).Wait[1] requires weight.Size <= s.maxProcessing.Size && weight.Num <= s.maxProcessing.Num
+//@   at call (*sync.Cond).Wait[1] modifies s.processing, s.maxProcessing
+//@   loop 1 modifies s.processing, s.maxProcessing
